@@ -109,6 +109,8 @@ fn err_class(e: &CommandError) -> String {
 enum Arg {
     S(String),
     R(Vec<u8>),
+    /// a filter `(<tag> == "<value>")` over a hand-built catch-all tag
+    F(String, String),
 }
 
 fn parse_arg(tok: &str) -> Option<Arg> {
@@ -119,6 +121,10 @@ fn parse_arg(tok: &str) -> Option<Arg> {
     match k {
         "s" => String::from_utf8(unhex(h)).ok().map(Arg::S),
         "r" => Some(Arg::R(unhex(h))),
+        "f" => {
+            let (t, v) = h.split_once('.')?;
+            Some(Arg::F(String::from_utf8(unhex(t)).ok()?, String::from_utf8(unhex(v)).ok()?))
+        }
         _ => None,
     }
 }
@@ -147,6 +153,14 @@ fn add(c: &mut Command, a: &Arg) -> Result<(), CommandError> {
             Ok(t) if r.len() % 2 == 1 => c.add_argument(mpd_client::tag::Tag::Other(t.to_string().into_boxed_str())),
             _ => c.add_argument(Raw(r.clone())),
         },
+        Arg::F(t, v) => {
+            let f = mpd_client::filter::Filter::tag(mpd_client::tag::Tag::Other(t.clone().into_boxed_str()), v.clone());
+            if (t.len() + v.len()) % 2 == 0 {
+                c.add_argument(f)
+            } else {
+                c.add_argument(&f)
+            }
+        }
     }
 }
 
@@ -685,6 +699,22 @@ fn gen_c07(cfg: &Cfg, r: &mut Rng, ops: &mut Vec<String>) {
                 v.insert(p, bad);
                 ops.push(format!("cmd.raw {} {} {} {}", hex(b"add"), hex(b"x"), hex(&v), hex(b"y")));
                 ops.push(format!("cmd.seq {} s{} s{} s{}", hex(b"add"), hex(b"x"), hex(&v), hex(b"y z")));
+            }
+        }
+    }
+    // the library's own composite renderer: a filter whose value or (hand-built) tag contains a line feed /
+    // NUL at every position, plain and hostile, followed by a further accepted argument
+    for (t, v) in [("Title", "Foo\nclose"), ("Title", "a\")\"\ncommand_list_end\nclear"), ("Al\nbum", "x"), ("Title", "a\0b"), ("T\0", ""), ("Title", "plain value"), ("Other-Tag", "it's \"quoted\" \\ ü")] {
+        ops.push(format!("cmd.seq {} s{} f{}.{} s{}", hex(b"find"), hex(b"x"), hex(t.as_bytes()), hex(v.as_bytes()), hex(b"y z")));
+        ops.push(format!("cmd.seq {} f{}.{}", hex(b"count"), hex(t.as_bytes()), hex(v.as_bytes())));
+    }
+    for base in ["abc", "a b"] {
+        for bad in ['\n', '\0'] {
+            for p in 0..=base.len() {
+                let mut v = base.to_string();
+                v.insert(p, bad);
+                ops.push(format!("cmd.seq {} f{}.{} s{}", hex(b"find"), hex(b"Artist"), hex(v.as_bytes()), hex(b"tail")));
+                ops.push(format!("cmd.seq {} f{}.{} s{}", hex(b"find"), hex(v.as_bytes()), hex(b"value"), hex(b"tail")));
             }
         }
     }
